@@ -305,10 +305,11 @@ OPERATORS = ["rename-field", "leaf-subselection", "composite-no-selection", "unk
              "unknown-input-field", "unknown-enum", "dup-variable", "output-type-variable", "undefined-variable", "retype-variable",
              "dup-fragment", "fragment-on-scalar", "fragment-on-unknown", "unknown-spread", "cyclic-spread", "impossible-spread",
              "impossible-inline", "inline-on-unknown", "unknown-directive", "misplaced-directive", "repeated-directive",
-             "bad-directive-arg", "dup-operation", "extra-anonymous", "subscription-two-roots", "undefined-variable-in-directive"]
+             "bad-directive-arg", "dup-operation", "extra-anonymous", "subscription-two-roots", "undefined-variable-in-directive",
+             "inline-on-enum", "inline-on-input", "inline-on-scalar", "retarget-inline", "fragment-on-enum", "fragment-on-input"]
 
 
-def inject(doc, operator, site, disjoint_type="Lone"):
+def inject(doc, operator, site, disjoint_type="Lone", names=None):
     """apply `operator` at its `site`-th site (0-based); returns mutated doc or None when there is no such site"""
     d = copy.deepcopy(doc)
     sels = list(walk_sels(d))
@@ -410,6 +411,22 @@ def inject(doc, operator, site, disjoint_type="Lone"):
         x = nth([(s, i) for s, i, _ in sels])
         if not x: return None
         x[0].append(G.inline([G.field("__typename")], "NoSuchType"))
+    elif operator in ("inline-on-enum", "inline-on-input", "inline-on-scalar"):
+        # an inline fragment whose type condition names an existing NON-composite type (there is no definition site for it)
+        x = nth([(s, i) for s, i, _ in sels])
+        t = (names or {}).get(operator[len("inline-on-"):], "Int")
+        if not x or not t: return None
+        x[0].append(G.inline([G.field("__typename")], t))
+    elif operator == "retarget-inline":
+        x = nth([(s, i) for s, i, _ in sels if s[i]["k"] == "inline" and s[i]["hasOn"]])
+        t = (names or {}).get(["enum", "input", "scalar"][site % 3], "Int")
+        if not x or not t: return None
+        x[0][x[1]]["on"] = t
+    elif operator in ("fragment-on-enum", "fragment-on-input"):
+        x = nth(frs)
+        t = (names or {}).get(operator[len("fragment-on-"):])
+        if not x or not t: return None
+        x["on"], x["sel"] = t, [G.field("__typename")]
     elif operator == "unknown-directive":
         x = nth(dsites)
         if not x: return None
